@@ -198,6 +198,13 @@ func replayScenario(c *Cfg, prop string, spec json.RawMessage) {
 		}
 		return
 	}
+	if cs.Family == "cancel-inside-the-last-callback" {
+		for _, f := range lastCallbackCancelFindings(cs.Scenario) {
+			fmt.Printf(" * finding %s: %s\n", f.key, f.detail)
+			c.Rep.Violate(prop, prop+":"+f.key, f.detail, cs)
+		}
+		return
+	}
 	outs, mrs := runScenario(cs.Scenario)
 	for i := range outs {
 		fmt.Printf("--- run %d\nmodel   : %v -> action=%q err=%q log=%v\n", i, mrs[i].Keys, mrs[i].Action, mrs[i].ErrID, mrs[i].Log)
@@ -288,3 +295,27 @@ func setGCOff() func() {
 }
 
 func runGC() { runtime.GC() }
+
+
+// lastCallbackCancelFindings: the scenario (one run, Inject.At = index of the final callback of the un-cancelled
+// reference run, which succeeds) is run with the context being cancelled inside that final callback: every phase on the
+// path has succeeded and nothing is left to do, so the run reports success.
+func lastCallbackCancelFindings(sc *scen.Scenario) (fs []finding) {
+	o := scen.NewExec(sc).RunOnce()
+	if o.Discard || o.Panic != "" || o.CancelSeq != sc.Inject.At {
+		return nil
+	}
+	n := 0
+	for _, e := range o.Events {
+		if e.Phase != "anomaly" {
+			n++
+		}
+	}
+	if n != sc.Inject.At+1 {
+		return nil // not the run the reference predicted (another property's business)
+	}
+	if !o.ErrNil {
+		fs = append(fs, finding{"error-although-every-phase-succeeded", fmt.Sprintf("the context was cancelled (%s) inside the final callback (#%d, %s) of a run in which every callback succeeded and after which nothing was left to do; the run returned the error %q instead of success", sc.Inject.Kind, sc.Inject.At, o.Events[len(o.Events)-1].Key(), o.ErrText)})
+	}
+	return fs
+}
